@@ -250,6 +250,8 @@ class Surface(SplineObject):
 
         # at this point we have a C0 basis, find the right interpolating index
         i  = max(bisect_left(b.knots, knot) - 1,0)
+        if b.periodic > -1:
+            i %= b.num_functions()
 
         # compute the controlpoints and return Curve
         cp = np.tensordot(C[i,:], self.controlpoints, axes=(0, direction))
